@@ -33,7 +33,21 @@ LEGS = {1: "seg (compute_bytecode_segment_lengths)", 2: "lay (statement/const/hi
 
 
 def run(ctx):
-    ok_build, _ = vlib.cargo_build(ctx, "h19")
+    source_leg = "not requested (quick tier)"
+    if ctx.thorough:
+        # thorough tier: also link the compiler front end and compile cairo_level_tests from source
+        import time
+        t = time.time()
+        rc, out = vlib.run(["cargo", "build", "--offline", "-p", "h19", "--features", "source"],
+                           cwd=vlib.HARNESS, timeout=3000)
+        ctx.log("cargo build -p h19 --features source: rc=%d (%.0fs)" % (rc, time.time() - t))
+        ok_build = rc == 0
+        source_leg = "built" if ok_build else "feature build failed, default harness used"
+        if not ok_build:
+            ctx.log("\n".join(out.splitlines()[-15:]))
+            ok_build, _ = vlib.cargo_build(ctx, "h19")
+    else:
+        ok_build, _ = vlib.cargo_build(ctx, "h19")
     ok_make, _ = vlib.coq_make(ctx, "C19")
     cone = vlib.cone_files("C19")
     pr = vlib.check_properties_file(ctx, os.path.join(vlib.COQ, "Props/C19.v"), cone) if ok_make else None
@@ -100,7 +114,10 @@ def run(ctx):
     samples = []
     sp = os.path.join(cases, "samples.txt")
     if os.path.exists(sp):
-        samples = [x[:500] for x in open(sp).read().splitlines()[:10]]
+        lines = open(sp).read().splitlines()
+        for pref, n in (("ep ", 2), ("canon ", 4), ("seg ", 3)):
+            samples += [x[:500] for x in lines if x.startswith(pref)][:n]
+        samples += [x[:500] for x in lines if x.startswith("ep ") and " base:" not in x][:3]
     n_cases = sum(summary.get(k, 0) for k in ("seg_cases", "lay_cases", "canon_cases", "ep_cases", "ver_cases"))
     ctx.cov.update({
         "obligations": pr["obligations"] if pr else 0,
@@ -111,7 +128,8 @@ def run(ctx):
         "evaluations": n_cases + summary.get("impl_runs", 0),
         "distinct_nontrivial": summary.get("distinct_cases", 0),
         "rule": "inputs: every *.contract_class.json under crates/cairo-lang-starknet/test_data (loaded with "
-                "ContractClass's serde, extract_sierra_program) x variations {no pythonic hints; swapped/"
+                "ContractClass's serde, extract_sierra_program), in the thorough tier also every contract of "
+                "cairo_level_tests compiled from Cairo source by cairo_lang_starknet::compile, x variations {no pythonic hints; swapped/"
                 "reversed/duplicated/aliased/subset/moved entry points; constructor variants; function index out "
                 "of range or random; 14 kinds of mutated entry function signatures; 6 Sierra versions; bytecode "
                 "size limits around the exact length}; hand-built programs with felt252_const<v> for boundary v; "
@@ -122,6 +140,7 @@ def run(ctx):
                 "panic), none is empty.",
         "input_distribution": summary,
         "programs": summary.get("classes", 0),
+        "source_leg": source_leg,
         "traces_validated_against_impl": summary.get("oracle_checked_results", 0),
         "case_shards": n_shards,
         "correspondence_disagreements": len(corr_bad),
